@@ -117,7 +117,7 @@ fn handle_gen(req: &Value) -> Value {
                 || match e {
                     LexStep { .. } => wants(req, "lexev"),
                     FirstSets(_) | BuilderPop(_) | BuilderTarget { .. } => wants(req, "buildev"),
-                    SetAction { .. } | FillOrder(_) | GotoFillOrder(_) => wants(req, "fillev"),
+                    ScanItem { .. } | SetAction { .. } | FillOrder(_) | GotoFillOrder(_) => wants(req, "fillev"),
                     FreshNames(_) => wants(req, "names"),
                 }
         };
